@@ -177,6 +177,9 @@ type seqStep struct {
 	Event bool     `json:"event"`
 	// Fail: the first exchange of this kind (blocks headers receipts logs traces) of the step is answered with HTTP 500
 	Fail string `json:"fail,omitempty"`
+	// Fault: how it fails: "" / "http500" = HTTP 500; soft faults a node really produces, put into the reply once:
+	// "null" ("result": null), "error" (an error member instead of the result), "empty" (an empty list where items exist)
+	Fault string `json:"fault,omitempty"`
 }
 
 // session: the client shared by the steps of a sequence and what its caches hold
@@ -446,24 +449,50 @@ func addSeq(out *lib.Out, e *env, seq []seqStep, kind string) {
 		if st.Fail != "" {
 			done := false
 			k := st.Fail
-			e.node.Pre(func(x *simnode.Exchange) {
-				if !done && x.Kind() == k {
-					done = true
-					x.Status = 500
-				}
-			})
+			// the element of the exchange that carries the data (logs: [header, eth_getLogs])
+			pos := 0
+			if k == "logs" {
+				pos = 1
+			}
+			switch st.Fault {
+			case "", "http500":
+				e.node.Pre(func(x *simnode.Exchange) {
+					if !done && x.Kind() == k {
+						done = true
+						x.Status = 500
+					}
+				})
+			default:
+				c := map[string]simnode.Corruption{
+					"null":  {Kind: "null-result", Pos: pos},
+					"error": {Kind: "error-only", Pos: pos, Arg: -32000},
+					"empty": {Kind: "items-empty", Pos: pos},
+				}[st.Fault]
+				e.node.Post(func(x *simnode.Exchange) {
+					if !done && x.Kind() == k {
+						done = true
+						c.Apply(x)
+					}
+				})
+			}
 		}
 		addStep(out, e, st.Sel, st.Event, kind, ss, seq, i)
 		e.node.Pre(nil)
+		e.node.Post(nil)
 	}
 }
 
 func addStep(out *lib.Out, e *env, sel []string, withEvent bool, kind string, ss *session, seq []seqStep, step int) {
 	d, coq := runCase(e, sel, withEvent, ss)
 	d.Seq, d.Step = seq, step
-	if len(seq) > 0 && seq[step].Fail != "" && strings.Contains(d.Err, "rpc http error: 500") {
-		// the injected failure: the step fails as it must, nothing is stored, nothing to compare
-		out.Count("injected-failure-" + seq[step].Fail)
+	if len(seq) > 0 && seq[step].Fail != "" && d.Err != "" && !strings.HasPrefix(d.Err, "panic") && d.Rows == 0 {
+		// the injected fault: the step fails (an error, nothing stored), nothing to compare.  When the client
+		// ACCEPTS the faulty reply the step is judged like any other: every stored column = the node's value
+		f := seq[step].Fault
+		if f == "" {
+			f = "http500"
+		}
+		out.Count("injected-" + f + "-" + seq[step].Fail)
 		return
 	}
 	if coq == "" {
@@ -478,7 +507,7 @@ func addStep(out *lib.Out, e *env, sel []string, withEvent bool, kind string, ss
 			for _, st := range seq[:step+1] {
 				f := ""
 				if st.Fail != "" {
-					f = "/FAIL " + st.Fail
+					f = "/FAIL " + st.Fail + " " + st.Fault
 				}
 				plans = append(plans, fmt.Sprintf("%v/event=%v%s", st.Sel, st.Event, f))
 			}
@@ -519,7 +548,7 @@ func runC14(cfg Cfg) error {
 	e := newEnv()
 	defer e.node.Close()
 	out := lib.NewOut("C14", cfg.Out, c14Header, "run", 100)
-	out.Rule = "dig.New(config.AddRequiredFields(sel)).Filter() -> jrpc2.Client.Get against the scripted node (every field of every item distinct and non-zero) -> Integration.Insert into a Go-level wpg.Conn capturing CopyFrom: every selectable field alone, ALL unordered pairs exhaustively, one representative set per subset of membership classes, random larger sets; without an event (transaction / trace rows) and with an event (log rows); 52 sequences of 2-3 integrations with different plans over the same range on ONE caching client (every ordered pair within the plans sharing the header cache and within those sharing the block cache, mixed triples), and sequences [X with one of its requests failing once; another plan Y; retry of X] for every plan X, every request kind of X, three Y. Oracle: every stored column of every row equals the node's value for that item and the number of rows equals the number of items. Model-diff: required fields, requests seen by the node = dispatch(glf.New), observed supplied-matrix = Provides. non-trivial = at least one non-context field selected"
+	out.Rule = "dig.New(config.AddRequiredFields(sel)).Filter() -> jrpc2.Client.Get against the scripted node (every field of every item distinct and non-zero) -> Integration.Insert into a Go-level wpg.Conn capturing CopyFrom: every selectable field alone, ALL unordered pairs exhaustively, one representative set per subset of membership classes, random larger sets; without an event (transaction / trace rows) and with an event (log rows); 52 sequences of 2-3 integrations with different plans over the same range on ONE caching client (every ordered pair within the plans sharing the header cache and within those sharing the block cache, mixed triples), and sequences [X with one of its requests failing once; another plan Y; retry of X] for every plan X, every request kind of X, three Y; and [X with a soft fault in one reply (result null, error member; empty list for traces) ; retry of X]. Oracle: every stored column of every row equals the node's value for that item and the number of rows equals the number of items. Model-diff: required fields, requests seen by the node = dispatch(glf.New), observed supplied-matrix = Provides. non-trivial = at least one non-context field selected"
 	if cfg.Replay != "" {
 		raw, err := os.ReadFile(cfg.Replay)
 		if err != nil {
@@ -641,8 +670,27 @@ func runC14(cfg Cfg) error {
 			}
 		}
 	}
+	// soft faults, once, followed by the retry: "result": null and an error member for every request kind of every
+	// plan; an empty list where items exist for traces (the one kind where the client can tell: every other empty
+	// list is indistinguishable from a block without transactions / a range without matching logs)
+	nsoft := 0
+	for _, x := range all {
+		for _, k := range kindsOf(x) {
+			faults := []string{"null", "error"}
+			if k == "traces" {
+				faults = append(faults, "empty")
+			}
+			for _, f := range faults {
+				xf := x
+				xf.Fail, xf.Fault = k, f
+				addSeq(out, e, []seqStep{xf, x}, "sequence-soft-fault")
+				nsoft++
+			}
+		}
+	}
 	out.Notes["sequences"] = nseq
 	out.Notes["failure_sequences"] = nfail
+	out.Notes["soft_fault_sequences"] = nsoft
 	// singles
 	for _, f := range names {
 		both([]*fieldDef{f}, "single")
